@@ -61,7 +61,14 @@ def result_key(r):
     if isinstance(r, lentil.Wavefront):
         return [f.data for f in r.data] + [np.asarray(r.shape, dtype=float)]
     if isinstance(r, lentil.Plane):
-        return [np.asarray(r.amplitude, dtype=float), np.asarray(r.opd, dtype=float), np.asarray(r.mask, dtype=float)]
+        derived = []
+        for attr in ("pixelscale", "diameter", "shape", "size", "global_mask", "ptt_vector"):
+            try:
+                v = getattr(r, attr)
+            except Exception:  # noqa: BLE001  (attribute undefined for this plane, e.g. no mask / no pixelscale)
+                v = None
+            derived.append(np.zeros(0) if v is None else np.asarray(v, dtype=float))
+        return [np.asarray(r.amplitude, dtype=float), np.asarray(r.opd, dtype=float), np.asarray(r.mask, dtype=float)] + derived
     if isinstance(r, Spectrum):
         return [np.asarray(r.wave, dtype=float), np.asarray(r.value, dtype=float)]
     if isinstance(r, (tuple, list)):
@@ -173,6 +180,9 @@ OPS = {
     "ptt_vector_segmented": lambda w, p: w.seg.ptt_vector,
     "fit_tilt_copy_segmented": lambda w, p: w.seg.fit_tilt(inplace=False),
     "fit_then_propagate": lambda w, p: lentil.propagate_dft(w.wave0 * w.pupil.fit_tilt(), pixelscale=w.du, shape=(6, 6), oversample=2),
+    "plane_attributes": lambda w, p: [np.asarray(getattr(pl, a), dtype=float) for pl in (w.pupil, w.pupil2, w.seg)
+                                      for a in ("diameter", "shape", "size", "pixelscale", "global_mask", "ptt_vector")],
+    "wavefront_attributes": lambda w, p: [w.wpupil.field, w.wpupil.intensity, w.wtilt.field, np.asarray(w.wtilt.shape, dtype=float)],
     "rescale": lambda w, p: w.pupil.rescale([0.5, 1.5, 2.0][p % 3]),
     "resample": lambda w, p: w.pupil.resample(w.dx / 1.5),
     "plane.copy": lambda w, p: w.seg.copy(),
@@ -312,7 +322,7 @@ def all_ops(case, ctx):
 # ---------------------------------------------------------------------------------------------------
 # (2) histories on shared objects
 
-PROBES = ["fit_tilt_copy_other_mask", "ptt_vector_other_mask", "fit_tilt_copy", "propagate_dft", "propagate_tilted", "multiply_tilt_on_fitted", "dft2", "dft2_same_shape", "spectrum_sample", "fit_then_propagate", "collect_charge_spectrum",
+PROBES = ["rescale", "resample", "plane_attributes", "fit_tilt_copy_other_mask", "ptt_vector_other_mask", "fit_tilt_copy", "propagate_dft", "propagate_tilted", "multiply_tilt_on_fitted", "dft2", "dft2_same_shape", "spectrum_sample", "fit_then_propagate", "collect_charge_spectrum",
           "zernike_custom_coords", "adc", "multiply_segmented"]
 
 
